@@ -1,0 +1,116 @@
+//! Verification seams (cargo feature `verif-hooks`, off by default).
+//!
+//! Two sources of nondeterminism in the builders are routed through this module so that an
+//! external explorer can enumerate them:
+//!   * `ChoiceRng`  - stands in for `rand::thread_rng()` in the CIP-2 random-improve strategies;
+//!                    every `gen_range(0..n)` asks a thread-local callback for the answer.
+//!   * `HashMap` / `HashSet` aliases - `std` hash containers with a seeded, deterministic
+//!                    `BuildHasher`; the seed is a thread-local.
+//! With the feature off this file is not compiled and nothing in the crate changes.
+
+use std::cell::{Cell, RefCell};
+use std::hash::{BuildHasher, Hasher};
+
+thread_local! {
+    static RNG_CALLBACK: RefCell<Option<Box<dyn FnMut(usize) -> usize>>> = RefCell::new(None);
+    static HASH_SEED: Cell<u64> = Cell::new(0);
+}
+
+/// Install (or remove with `None`) the callback answering `gen_range(0..n)` on this thread.
+pub fn set_rng_callback(cb: Option<Box<dyn FnMut(usize) -> usize>>) {
+    RNG_CALLBACK.with(|c| *c.borrow_mut() = cb);
+}
+
+/// Set the seed used by hash containers created afterwards on this thread.
+pub fn set_hash_seed(seed: u64) {
+    HASH_SEED.with(|c| c.set(seed));
+}
+
+pub fn get_hash_seed() -> u64 {
+    HASH_SEED.with(|c| c.get())
+}
+
+pub struct ChoiceRng;
+
+impl ChoiceRng {
+    pub fn new() -> Self {
+        ChoiceRng
+    }
+
+    pub fn gen_range(&mut self, range: std::ops::Range<usize>) -> usize {
+        let n = range.end - range.start;
+        let answered = RNG_CALLBACK.with(|c| {
+            let mut guard = c.borrow_mut();
+            match guard.as_mut() {
+                Some(cb) => Some(cb(n)),
+                None => None,
+            }
+        });
+        match answered {
+            Some(x) => {
+                assert!(x < n, "verif rng callback answered out of range");
+                range.start + x
+            }
+            None => {
+                use rand::Rng;
+                rand::thread_rng().gen_range(range)
+            }
+        }
+    }
+}
+
+#[derive(Clone, Copy, Debug)]
+pub struct SeededState(u64);
+
+impl Default for SeededState {
+    fn default() -> Self {
+        SeededState(get_hash_seed())
+    }
+}
+
+pub struct SeededHasher(u64);
+
+impl Hasher for SeededHasher {
+    fn finish(&self) -> u64 {
+        // final avalanche (splitmix64)
+        let mut z = self.0.wrapping_add(0x9e3779b97f4a7c15);
+        z = (z ^ (z >> 30)).wrapping_mul(0xbf58476d1ce4e5b9);
+        z = (z ^ (z >> 27)).wrapping_mul(0x94d049bb133111eb);
+        z ^ (z >> 31)
+    }
+
+    fn write(&mut self, bytes: &[u8]) {
+        for b in bytes {
+            self.0 = (self.0 ^ (*b as u64)).wrapping_mul(0x100000001b3);
+            self.0 = self.0.rotate_left(5);
+        }
+    }
+}
+
+impl BuildHasher for SeededState {
+    type Hasher = SeededHasher;
+    fn build_hasher(&self) -> SeededHasher {
+        SeededHasher(0xcbf29ce484222325 ^ self.0.wrapping_mul(0x9e3779b97f4a7c15))
+    }
+}
+
+pub type HashMap<K, V> = std::collections::HashMap<K, V, SeededState>;
+pub type HashSet<K> = std::collections::HashSet<K, SeededState>;
+
+/// `HashMap::new()` / `HashSet::new()` are inherent only for `RandomState`; this supplies them
+/// for the seeded aliases so call sites stay unchanged.
+pub trait NewExt {
+    fn new() -> Self;
+}
+
+impl<K, V> NewExt for HashMap<K, V> {
+    fn new() -> Self {
+        std::collections::HashMap::with_hasher(SeededState::default())
+    }
+}
+
+impl<K> NewExt for HashSet<K> {
+    fn new() -> Self {
+        std::collections::HashSet::with_hasher(SeededState::default())
+    }
+}
